@@ -124,7 +124,9 @@ class PathCtx:
         from .oblig import discharge
         tc = self.tc
         name = "%s/%s/%s#%s" % (tc.prop, tc.task.name, clause, self.label)
-        hyps = self.hyps + list(self.dom.facts)
+        if not self.check_divisors(replay):
+            return False
+        hyps = self.hyps + list(self.dom.facts) + [d != 0 for d in self.dom.divisors]
         r = discharge(self.dom, name, hyps, goal, timeout_ms=timeout_ms or (20000 if tc.tier == "thorough" else 10000),
                       kind=tc.task.kind, extra=extra)
         r.clause = clause
@@ -136,6 +138,27 @@ class PathCtx:
             tc.samples.append({"obligation": name, "goal": s if len(s) < 600 else s[:600] + " ...",
                                "hypotheses": len(hyps), "witness": self.witness()})
         return r.status == "proved"
+
+    def check_divisors(self, replay=None):
+        """vacuity guard for the no-division-by-zero hypothesis: if some divisor must vanish on this
+        path the hypothesis is contradictory -- that is a defect (non-finite result), not a proof"""
+        divs = list(getattr(self.dom, "divisors", []))
+        n = len(divs)
+        if n == getattr(self, "_divs_checked", 0):
+            return getattr(self, "_divs_ok", True)
+        self._divs_checked = n
+        base = self.hyps + list(self.dom.facts)
+        r, m = self.dom.check(base + [d != 0 for d in divs], timeout_ms=5000)
+        self._divs_ok = True
+        if r == "unsat":
+            rb, _ = self.dom.check(base, timeout_ms=5000)
+            if rb != "unsat":
+                self._divs_ok = False
+                res = self.tc.add_result("finite(no division by zero)#%s" % self.label, "refuted",
+                                         detail="a divisor is zero on every input of this path", model=self.model_inputs())
+                res.clause = "finite(no division by zero)"
+                res.replay = replay
+        return self._divs_ok
 
     def witness(self):
         """satisfiability witness of the hypotheses (vacuity guard)"""
